@@ -9,7 +9,9 @@ import (
 	"os/exec"
 	"path/filepath"
 	"sort"
+	"strconv"
 	"strings"
+	"sync"
 	"time"
 )
 
@@ -193,6 +195,11 @@ func variantFiles() []string {
 func runVariants(prop string) variantResult {
 	var r variantResult
 	self, _ := os.Executable()
+	type job struct {
+		vf, prop, rule, name string
+		clean                bool
+	}
+	var jobs []job
 	for _, vf := range variantFiles() {
 		b, err := os.ReadFile(vf)
 		if err != nil {
@@ -207,52 +214,68 @@ func runVariants(prop string) variantResult {
 			if prop != "" && cl != prop {
 				continue
 			}
-			cmd := exec.Command(self, "check", cl, "--overlay", vf, "--no-evidence")
-			cmd.Env = os.Environ()
-			out, _ := cmd.CombinedOutput()
-			codeOf := cmd.ProcessState.ExitCode()
-			name := fmt.Sprintf("%s[%s must stay silent]", spec.Name, cl)
-			switch {
-			case codeOf == 3:
-				r.skipped++
-				r.lines = append(r.lines, name+": SKIPPED (stale context)")
-			case codeOf == 0:
-				r.ran++
-				r.lines = append(r.lines, name+": silent as expected")
-			default:
-				r.ran++
-				r.failures = append(r.failures, name)
-				first := ""
-				for _, ln := range strings.Split(string(out), "\n") {
-					if strings.HasPrefix(ln, "REPORT") {
-						first = ln
-						break
-					}
-				}
-				r.lines = append(r.lines, fmt.Sprintf("%s: FALSE ALARM (exit %d) %s", name, codeOf, first))
-			}
+			jobs = append(jobs, job{vf, cl, "", fmt.Sprintf("%s[%s must stay silent]", spec.Name, cl), true})
 		}
 		for _, ex := range spec.Expect {
 			if prop != "" && ex.Property != prop {
 				continue
 			}
-			cmd := exec.Command(self, "check", ex.Property, "--overlay", vf, "--no-evidence")
+			jobs = append(jobs, job{vf, ex.Property, ex.Rule, fmt.Sprintf("%s[%s %s]", spec.Name, ex.Property, ex.Rule), false})
+		}
+	}
+	type res struct {
+		line          string
+		fail, skipped bool
+	}
+	out := make([]res, len(jobs))
+	workers := 8
+	if n, err := strconv.Atoi(os.Getenv("KVERIF_WORKERS")); err == nil && n > 0 {
+		workers = n
+	}
+	sem := make(chan struct{}, workers)
+	var wg sync.WaitGroup
+	for i, j := range jobs {
+		wg.Add(1)
+		sem <- struct{}{}
+		go func(i int, j job) {
+			defer wg.Done()
+			defer func() { <-sem }()
+			cmd := exec.Command(self, "check", j.prop, "--overlay", j.vf, "--no-evidence")
 			cmd.Env = os.Environ()
-			out, _ := cmd.CombinedOutput()
-			codeOf := cmd.ProcessState.ExitCode()
-			name := fmt.Sprintf("%s[%s %s]", spec.Name, ex.Property, ex.Rule)
+			o, _ := cmd.CombinedOutput()
+			code := cmd.ProcessState.ExitCode()
 			switch {
-			case codeOf == 3:
-				r.skipped++
-				r.lines = append(r.lines, name+": SKIPPED (stale context)")
-			case codeOf == 1 && strings.Contains(string(out), "REPORT rule="+ex.Rule+" "):
-				r.ran++
-				r.lines = append(r.lines, name+": reported as expected")
+			case code == 3:
+				out[i] = res{line: j.name + ": SKIPPED (stale context)", skipped: true}
+			case j.clean && code == 0:
+				out[i] = res{line: j.name + ": silent as expected"}
+			case j.clean:
+				first := ""
+				for _, ln := range strings.Split(string(o), "\n") {
+					if strings.HasPrefix(ln, "REPORT") {
+						first = ln
+						break
+					}
+				}
+				out[i] = res{line: fmt.Sprintf("%s: FALSE ALARM (exit %d) %s", j.name, code, first), fail: true}
+			case code == 1 && (j.rule == "" && strings.Contains(string(o), "REPORT rule=") || j.rule != "" && strings.Contains(string(o), "REPORT rule="+j.rule+" ")):
+				out[i] = res{line: j.name + ": reported as expected"}
 			default:
-				r.ran++
-				r.failures = append(r.failures, name)
-				r.lines = append(r.lines, fmt.Sprintf("%s: NOT reported (exit %d)", name, codeOf))
+				out[i] = res{line: fmt.Sprintf("%s: NOT reported (exit %d)", j.name, code), fail: true}
 			}
+		}(i, j)
+	}
+	wg.Wait()
+	for i, o := range out {
+		r.lines = append(r.lines, o.line)
+		switch {
+		case o.skipped:
+			r.skipped++
+		case o.fail:
+			r.ran++
+			r.failures = append(r.failures, jobs[i].name)
+		default:
+			r.ran++
 		}
 	}
 	return r
